@@ -80,7 +80,7 @@ HARNESS_GROUPS = {
     "verify": ["zz_vf_verify_test.go", "zz_vf_internals_test.go"],
     "concurrent": ["zz_vf_concurrent_test.go"],
     "jwt": ["zz_vf_jwt_test.go", "zz_vf_internals_jwt_test.go"],
-    "limiter": ["zz_vf_limiter_test.go", "zz_vf_internals_limiter_test.go"],
+    "limiter": ["zz_vf_limiter_test.go", "zz_vf_internals_limiter_test.go", "zz_vf_internals_test.go"],
     "discovery": ["zz_vf_discovery_test.go", "zz_vf_internals_discovery_test.go"],
     "misc": ["zz_vf_internals_misc_test.go", "zz_vf_escape_test.go", "zz_vf_cookiesize_test.go", "zz_vf_cryptoparams_test.go"],
 }
